@@ -217,7 +217,10 @@ def slices(prop, tier, seed):
             S.append(("S-cw4", (w for w in W.s_cw(seed, k_max=4, full=False)
                                 if " k=4 " in w["tag"] and "load=preload" in w["tag"])))
     elif prop == "C12":
-        enf = {k: v for k, v in pp.items() if v.get("enforce_deadlines")}
+        # the statement's quantifier: "ILP: task-by-task mode, i.e. without
+        # release_taskgraphs, where enforcement is unconditional"
+        enf = {k: v for k, v in pp.items() if v.get("enforce_deadlines")
+               and not (v.get("scheduler") == "ILP" and v.get("release_taskgraphs"))}
         S.append(("S-plan", W.s_plan(enf if th else {k: enf[k] for k in pp_small},
                                      seed, max_n=3 if th else 2,
                                      slacks=((0, 0), (50, 50), (100, 100)))))
